@@ -406,6 +406,12 @@ impl TcpSim {
         let tail: Vec<Json> = self.trace.iter().rev().take(60).rev().map(|s| Json::s(s.clone())).collect();
         if self.trace_on {
             println!("{:>12.6} !!! VIOLATION {} [{}] {}", self.now as f64 / 1e6, prop, sig, desc);
+            // diagnostic only: the sockets' own view (Debug rendering), never used for a verdict
+            for i in 0..2 {
+                let d = format!("{:?}", self.hosts[i].sockets.get::<tcp::Socket>(self.handles[i]));
+                let keep: Vec<&str> = d.split(", ").filter(|f| !f.contains("storage") && f.len() < 200).collect();
+                println!("             ep{} socket: {}", i, keep.join(", "));
+            }
         }
         let v = Violation::new(sig, format!("t={:.6}s: {}", self.now as f64 / 1e6, desc)).with(
             Json::obj()
@@ -1007,9 +1013,21 @@ impl TcpSim {
                     let (t0, t1) = (self.cfg.ep[0].total, self.cfg.ep[1].total);
                     let aborted = (matches!(s0, tcp::State::Closed) || matches!(s1, tcp::State::Closed)) && (d0 < t1 || d1 < t0);
                     self.stats.aborted = aborted;
+                    // The signature names the timer each socket is left with (taken from the
+                    // sockets' Debug rendering: diagnostic only, the verdict does not depend on it),
+                    // so that different livelock mechanisms keep different signatures.
+                    let timer_of = |me: &Self, i: usize| -> String {
+                        let d = format!("{:?}", me.hosts[i].sockets.get::<tcp::Socket>(me.handles[i]));
+                        match d.find("timer: ") {
+                            Some(p) => d[p + 7..].chars().take_while(|c| c.is_alphanumeric()).collect(),
+                            None => "unknown".to_string(),
+                        }
+                    };
+                    let mut tm = [timer_of(self, 0), timer_of(self, 1)];
+                    tm.sort();
                     self.violate(
                         "C02",
-                        format!("B:{}:{}/{}", if aborted { "aborted" } else { "no-progress" }, s0, s1),
+                        if aborted { format!("B:aborted:{}/{}", s0, s1) } else { format!("B:no-progress:timers:{}+{}", tm[0], tm[1]) },
                         format!(
                             "no byte delivered, no byte accepted and no state change for 900 s of virtual time on a reliable network: ep0 {} delivered {}/{}, ep1 {} delivered {}/{}",
                             s0, d0, t1, s1, d1, t0
